@@ -136,7 +136,9 @@ CHECKS["C20"] = dict(
          "three-file two-language project with a local source->sink flow in every python method are recorded per rule subset and judged by "
          "the same definition: entry table = Selected, started = Selected, flow reported iff its method is reachable from a selected entry.",
     note="Names chosen so that substring and exact matching coincide; quick: singletons + fixed pairs + 30 seeded subsets; thorough: all subsets up to "
-         "size 3 + 120 larger ones; relies on the call-source fix ced863b for the flow clause.",
+         "size 3 + 120 larger ones; 42 further runs spread the same rule sets over several rule files (python-entry.yaml, webapp-entry.yaml + "
+         "java-entry.yaml, a sub-directory file): the configuration is the union of every *entry.yaml below the settings directory; "
+         "relies on the call-source fix ced863b for the flow clause.",
     design_ref="5/C20", engine="EntryPoints")
 
 CHECKS["C11"] = dict(
